@@ -72,16 +72,39 @@ var allStates = []swap.StateType{"", swap.State_SendCancel, swap.State_SwapCance
 	swap.State_SwapInReceiver_CreateSwap, swap.State_SwapInReceiver_SendAgreement, swap.State_SwapInReceiver_AwaitTxBroadcastedMessage, swap.State_SwapInReceiver_AwaitTxConfirmation,
 	swap.State_SwapInReceiver_ValidateTxAndPayClaimInvoice, swap.State_SwapInReceiver_ClaimSwap, swap.State_SwapInReceiver_SendPrivkey, swap.State_SwapInReceiver_SendCoopClose}
 
-func genRecord(t *rapid.T) (*swap.SwapStateMachine, int) {
+// genRecord returns a generated record, the number of optional messages it
+// carries and how its swap data was built: "literal" (a bare struct), or through
+// one of the two constructors the node itself uses ("requester": NewSwapData,
+// "responder": NewSwapDataFromRequest) with the id of the state machine, exactly
+// as newSwap*FSM do. Half of the constructor-built records carry no message yet
+// (a record written before the first message was applied).
+func genRecord(t *rapid.T) (*swap.SwapStateMachine, int, string) {
 	opt := 0
+	sid := gId(t, "sid")
+	how := rapid.SampledFrom([]string{"literal", "requester", "responder"}).Draw(t, "how")
+	bare := how != "literal" && rapid.Bool().Draw(t, "bare")
 	has := func(label string) bool {
+		if bare {
+			return false
+		}
 		b := rapid.Bool().Draw(t, label)
 		if b {
 			opt++
 		}
 		return b
 	}
-	d := &swap.SwapData{}
+	var d *swap.SwapData
+	switch how {
+	case "requester":
+		d = swap.NewSwapData(sid, "", "")
+	case "responder":
+		d = swap.NewSwapDataFromRequest(sid, "")
+	default:
+		d = &swap.SwapData{}
+	}
+	if bare {
+		how += "-bare"
+	}
 	if has("inreq") {
 		d.SwapInRequest = &swap.SwapInRequestMessage{ProtocolVersion: rapid.Uint8().Draw(t, "v"), SwapId: gId(t, "id1"), Network: gStr(t, "net"), Asset: gStr(t, "asset"), Scid: gStr(t, "scid"), Amount: gU64(t, "amt"), Pubkey: gStr(t, "pk"), PremiumLimit: gI64(t, "pl")}
 	}
@@ -123,28 +146,41 @@ func genRecord(t *rapid.T) (*swap.SwapStateMachine, int) {
 	d.NextMessageType = int(gI64(t, "nmt"))
 	d.LastErrString = gStr(t, "lasterr")
 	sm := &swap.SwapStateMachine{
-		SwapId:   gId(t, "sid"),
+		SwapId:   sid,
 		Data:     d,
 		Type:     swap.SwapType(rapid.IntRange(0, 3).Draw(t, "type")),
 		Role:     swap.SwapRole(rapid.IntRange(0, 3).Draw(t, "role")),
 		Previous: rapid.SampledFrom(allStates).Draw(t, "prev"),
 		Current:  rapid.SampledFrom(allStates).Draw(t, "cur"),
 	}
-	return sm, opt
+	return sm, opt, how
 }
 
-// fieldPolicy lists, for the two persisted structs, which fields are expected to
-// survive a reload and which are in-memory only. A field that appears in
-// neither list (a newly added one) fails the structural check, so that its
-// persistence has to be decided explicitly.
-var fieldPolicy = map[string]map[string]bool{
-	"SwapStateMachine": {"SwapId": true, "Data": true, "Type": true, "Role": true, "Previous": true, "Current": true,
-		"States": false, "mutex": false, "swapServices": false, "retries": false, "failures": false, "stateMutex": false, "stateChange": false},
-	"SwapData": {"SwapInRequest": true, "SwapInAgreement": true, "SwapOutRequest": true, "SwapOutAgreement": true, "OpeningTxBroadcasted": true, "CoopClose": true, "Cancel": true,
-		"CancelMessage": true, "PeerNodeId": true, "InitiatorNodeId": true, "CreatedAt": true, "Role": true, "FSMState": true, "PrivkeyBytes": true, "FeePreimage": true,
-		"OpeningTxFee": true, "OpeningTxHex": true, "StartingBlockHeight": true, "ClaimTxId": true, "ClaimPaymentHash": true, "ClaimPreimage": true, "StartingBlockHeightSet": true,
-		"BlindingKeyHex": true, "LastMessage": true, "NextMessage": true, "NextMessageType": true, "LastErr": false, "LastErrString": true, "toCancel": false},
+// fieldPolicy lists, for the two persisted structs, what is expected of every
+// field across a reload: "persisted" (written to the record, compared by value),
+// "memory" (process-local: locks, services, cancel functions, counters; a
+// restarted process rebuilds them) or "restored" (not written itself but
+// re-derived from the record on reload; the accessor named in restoredVia must
+// answer the same before and after, which TestC14RecordRoundTrip checks). A
+// field that appears in no list (a newly added one) fails the structural check,
+// so that its persistence has to be decided explicitly.
+var fieldPolicy = map[string]map[string]string{
+	"SwapStateMachine": {"SwapId": "persisted", "Data": "persisted", "Type": "persisted", "Role": "persisted", "Previous": "persisted", "Current": "persisted",
+		"States": "memory", "mutex": "memory", "swapServices": "memory", "retries": "memory", "failures": "memory", "stateMutex": "memory", "stateChange": "memory"},
+	"SwapData": {"SwapInRequest": "persisted", "SwapInAgreement": "persisted", "SwapOutRequest": "persisted", "SwapOutAgreement": "persisted", "OpeningTxBroadcasted": "persisted",
+		"CoopClose": "persisted", "Cancel": "persisted", "CancelMessage": "persisted", "PeerNodeId": "persisted", "InitiatorNodeId": "persisted", "CreatedAt": "persisted",
+		"Role": "persisted", "FSMState": "persisted", "PrivkeyBytes": "persisted", "FeePreimage": "persisted", "OpeningTxFee": "persisted", "OpeningTxHex": "persisted",
+		"StartingBlockHeight": "persisted", "ClaimTxId": "persisted", "ClaimPaymentHash": "persisted", "ClaimPreimage": "persisted", "StartingBlockHeightSet": "persisted",
+		"BlindingKeyHex": "persisted", "LastMessage": "persisted", "NextMessage": "persisted", "NextMessageType": "persisted", "LastErr": "memory", "LastErrString": "persisted",
+		"toCancel": "memory",
+		// the id the swap was created with: answers GetId() until a message that
+		// carries the id has been applied; it equals the record's SwapId
+		"swapId": "restored"},
 }
+
+// restoredVia names the exported accessor through which a "restored" field is
+// observed by the round-trip check.
+var restoredVia = map[string]string{"SwapData.swapId": "GetId"}
 
 func TestC14StructuralFieldPolicy(t *testing.T) {
 	col := stats.Get("C14.fields")
@@ -152,16 +188,22 @@ func TestC14StructuralFieldPolicy(t *testing.T) {
 		pol := fieldPolicy[name]
 		for i := 0; i < typ.NumField(); i++ {
 			f := typ.Field(i)
-			persist, known := pol[f.Name]
+			class, known := pol[f.Name]
 			if !known {
 				t.Fatalf("VKEY[C14/undeclared-field] %s.%s is not covered by the persistence policy of the check", name, f.Name)
 			}
 			tag := f.Tag.Get("json")
 			excluded := tag == "-" || !f.IsExported()
-			if persist && excluded {
+			if class == "persisted" && excluded {
 				t.Fatalf("VKEY[C14/field-not-persisted] %s.%s must be persisted but is excluded from the record (tag %q)", name, f.Name, tag)
 			}
-			col.Case(name+"."+f.Name, true, map[string]interface{}{"field": name + "." + f.Name, "persisted": persist, "tag": tag})
+			if class == "restored" {
+				via := restoredVia[name+"."+f.Name]
+				if _, ok := reflect.PtrTo(typ).MethodByName(via); !ok {
+					t.Fatalf("VKEY[C14/undeclared-field] %s.%s is restored on reload but its accessor %q does not exist", name, f.Name, via)
+				}
+			}
+			col.Case(name+"."+f.Name, true, map[string]interface{}{"field": name + "." + f.Name, "class": class, "tag": tag})
 		}
 	}
 }
@@ -177,7 +219,7 @@ func TestC14RecordRoundTrip(t *testing.T) {
 		t.Fatal(err)
 	}
 	rapid.Check(t, func(t *rapid.T) {
-		sm, opt := genRecord(t)
+		sm, opt, how := genRecord(t)
 		want, _ := json.Marshal(sm)
 		if err := store.UpdateData(sm); err != nil {
 			t.Fatalf("UpdateData: %v", err)
@@ -192,6 +234,13 @@ func TestC14RecordRoundTrip(t *testing.T) {
 			if !reflect.DeepEqual(a.SwapId, b.SwapId) || a.Type != b.Type || a.Role != b.Role || a.Previous != b.Previous || a.Current != b.Current {
 				t.Fatalf("VKEY[C14/reload-differs] %s: state machine header differs\n wrote %s\n got   %+v", via, want, b)
 			}
+			// the id the swap answers with (for a swap no message has been
+			// applied to, the id it was created with). A bare struct without any
+			// message never had an id: the node builds swap data only through
+			// the two constructors, so that case is outside the domain.
+			if ia, ig := a.Data.GetId(), b.Data.GetId(); ia != nil && (ig == nil || *ia != *ig) {
+				t.Fatalf("VKEY[C14/reload-differs:GetId] %s: GetId() answered %v before and %v after the reload (%s record)\n wrote %s", via, ia, ig, how, want)
+			}
 			da, dg := *a.Data, *b.Data
 			// normalise the documented equivalence: nil and empty byte slices both mean "no bytes"
 			if len(da.PrivkeyBytes) == 0 && len(dg.PrivkeyBytes) == 0 {
@@ -200,17 +249,16 @@ func TestC14RecordRoundTrip(t *testing.T) {
 			if len(da.NextMessage) == 0 && len(dg.NextMessage) == 0 {
 				da.NextMessage, dg.NextMessage = nil, nil
 			}
-			if !reflect.DeepEqual(da, dg) {
-				for i := 0; i < reflect.TypeOf(da).NumField(); i++ {
-					f := reflect.TypeOf(da).Field(i)
-					if !f.IsExported() {
-						continue
-					}
-					if !reflect.DeepEqual(reflect.ValueOf(da).Field(i).Interface(), reflect.ValueOf(dg).Field(i).Interface()) {
-						t.Fatalf("VKEY[C14/reload-differs:%s] %s: field %s differs: wrote %#v, reloaded %#v", f.Name, via, f.Name, reflect.ValueOf(da).Field(i).Interface(), reflect.ValueOf(dg).Field(i).Interface())
-					}
+			// compare every persisted (exported) field by value; unexported
+			// fields are classified by TestC14StructuralFieldPolicy
+			for i := 0; i < reflect.TypeOf(da).NumField(); i++ {
+				f := reflect.TypeOf(da).Field(i)
+				if !f.IsExported() || fieldPolicy["SwapData"][f.Name] != "persisted" {
+					continue
 				}
-				t.Fatalf("VKEY[C14/reload-differs] %s: data differs", via)
+				if !reflect.DeepEqual(reflect.ValueOf(da).Field(i).Interface(), reflect.ValueOf(dg).Field(i).Interface()) {
+					t.Fatalf("VKEY[C14/reload-differs:%s] %s: field %s differs: wrote %#v, reloaded %#v", f.Name, via, f.Name, reflect.ValueOf(da).Field(i).Interface(), reflect.ValueOf(dg).Field(i).Interface())
+				}
 			}
 		}
 		check("GetData", got)
@@ -256,6 +304,6 @@ func TestC14RecordRoundTrip(t *testing.T) {
 		}
 		_ = store.DeleteById(sm.SwapId.String()) // keep ListAll small
 		extreme := strings.Contains(string(want), "18446744073709551615") || strings.Contains(string(want), "9223372036854775807") || strings.Contains(string(want), "4294967295") || len(want) > 3000
-		col.Case(string(want), opt >= 3 || extreme, map[string]interface{}{"optional_messages": opt, "json": fmt.Sprintf("%.300s", want)}, fmt.Sprintf("optional:%d", opt))
+		col.Case(string(want), opt >= 3 || extreme || strings.HasSuffix(how, "-bare"), map[string]interface{}{"optional_messages": opt, "built": how, "json": fmt.Sprintf("%.300s", want)}, fmt.Sprintf("optional:%d", opt), "built:"+how)
 	})
 }
